@@ -17,6 +17,7 @@ func init() {
 }
 
 func runC15(ctx *core.Ctx) {
+	c15Round5(ctx)
 	ctx.Trusted = append(ctx.Trusted, "go/types, go/ssa", "semantics of filepath.Clean/Join/IsAbs/IsLocal and of os.OpenFile flags (O_EXCL|O_CREATE never opens an existing file)")
 	ctx.Rule("X1", "guard completeness in txtar.Write: every file-system call that creates something (os.MkdirAll, os.OpenFile, os.Create, os.WriteFile) takes a path derived from filepath.Join(dir, p) with p = filepath.Clean(filepath.FromSlash(entry name)), and is reached only when p is known not absolute, not equal to \"..\" and not prefixed by \"..\"+separator (or filepath.IsLocal(p) is known true)", 2)
 	ctx.Rule("X2", "no overwrite: the flag constant of the os.OpenFile that creates an entry contains O_CREATE|O_EXCL and not O_TRUNC", 1)
